@@ -181,6 +181,38 @@ def _key_kind(key, pos):
     return None
 
 
+def _key_collision(project, ev, key, parent, got):
+    """Two distinct parent positions (levels 0..4) that a derived readiness key maps to the same value, or None.
+    A collision is a definite counterexample; finding none proves nothing."""
+    k = key
+    # a key computed by a project helper: evaluate the helper on the argument
+    if k[0] == "call":
+        g, binding = ev.bound_args(k)
+        if g is not None and binding is not None:
+            ev2 = sym.make_evaluator(project, g.module.name, [])
+            r2 = ev2.run(g.node, args=binding)
+            folded = boolalg.fold_returns(r2.returns)
+            if folded is not None:
+                k = folded
+    seen = {}
+    for n in range(1, 6):
+        for x in range(2 ** n):
+            for y in range(2 ** n):
+                env = {("attr", got, "n"): n, ("attr", got, "x"): x, ("attr", got, "y"): y}
+                v = teval(k, env)
+                if v is UNKNOWN:
+                    return None
+                par = (n - 1, x // 2, y // 2)
+                try:
+                    hash(v)
+                except TypeError:
+                    return None
+                if v in seen and seen[v] != par:
+                    return "Pos%s" % (seen[v],), "Pos%s" % (par,), v
+                seen[v] = par
+    return None
+
+
 def _is_get_on(t, qname):
     return t[0] == "call" and t[1][0] == "attr" and t[1][2] in ("get", "get_nowait") and t[1][1][0] == "new" and t[1][1][1] == qname
 
@@ -290,8 +322,15 @@ def _dispatcher(run, ev):
                             pass
                         elif k0 != parent:
                             if got in atoms_of(k0) or any(a[0] == "nt" for a in atoms_of(k0)):
-                                run.undecided("C01.R2", f, e.node, "readiness is keyed by %s instead of the parent position itself; "
-                                              "injectivity of that key over (n, x, y) cannot be established" % show(k0)[:200], kind="readiness-key")
+                                coll = _key_collision(project, ev, k0, parent, got)
+                                if coll is not None:
+                                    run.violated("C01.R2", f, e.node, "readiness is keyed by %s, which is not injective: the parents %s and %s share the key %s, so "
+                                                 "completions of children of one are counted for the other (a parent is released early, or never)" % (
+                                                     show(k0)[:120], coll[0], coll[1], coll[2]), kind="readiness-key-collision")
+                                    verdict = "bad"
+                                else:
+                                    run.undecided("C01.R2", f, e.node, "readiness is keyed by %s instead of the parent position itself; "
+                                                  "injectivity of that key over (n, x, y) cannot be established" % show(k0)[:200], kind="readiness-key")
                             else:
                                 run.violated("C01.R2", f, e.node, "flags are read from readiness[%s], not from the entry of the parent %s"
                                              % (show(k0)[:120], show(parent)[:120]), kind="readiness-key")
